@@ -185,7 +185,7 @@ def n_leaf(op, value, lit):
     raise ValueError(op)
 
 
-def naive_select(schema, data, T, cond):
+def naive_select(schema, data, T, cond, info=None):
     """what `* from T where cond` selects, by nested loops.
 
     schema: list of relations; data: name -> rows (lists of str/None) or None when the relation has no
@@ -224,6 +224,8 @@ def naive_select(schema, data, T, cond):
 
     try:
         rc = walk(cond)
+        if info is not None:
+            info["rels"] = list(leaves)      # resolution done: the relations of the condition's columns
         R = [T]
         for rel in leaves:
             if rel not in R:
@@ -806,6 +808,41 @@ def select_params(case):
     return out
 
 
+def filt_params(case):
+    """per target relation: what the model is told about the filter (resolution result, the relations of
+    the condition's columns, counts, late exception); the join plan itself is computed by the model"""
+    where = case.get("where")
+    if not where:
+        return None
+    src = case["src"]
+    if src.get("schema") is None:
+        return {}
+    files = dir_files(src)
+    data = {r["name"]: (n_current(files[r["name"]]) if r["name"] in files else None) for r in src["schema"]}
+    target = target_of(case)
+    out = {}
+    for rel in target:
+        t = rel["name"]
+        if t not in to_copy(case, target) or t not in data or data[t] is None:
+            continue
+        if "text" in where:
+            out[t] = {"raise": "KeyError" if "nosuch" in where["text"] else "TSQLSyntaxError"}
+            continue
+        info = {}
+        v = naive_select(src["schema"], data, t, where["cond"], info)
+        if "rels" not in info:
+            out[t] = "unresolved" if v[0] == "tsqlError" else {"raise": v[1]}
+        elif v[0] == "counts":
+            out[t] = {"rels": info["rels"], "counts": v[1], "late": None}
+        elif v[0] == "tsqlError":
+            out[t] = {"rels": info["rels"], "counts": [], "late": None}
+        elif v[1] == "unmodelled":
+            out[t] = None
+        else:
+            out[t] = {"rels": info["rels"], "counts": [], "late": v[1]}
+    return out
+
+
 class C12(Check):
     pid = "C12"
     quick_cases = 2500
@@ -928,21 +965,13 @@ class C12(Check):
         if case["kind"] == "db":
             req["src"] = case["src"]
             req["full"] = case["full"]
-            sp = select_params(case)
-            if sp is None:
+            fp = filt_params(case)
+            if fp is None:
                 req["sel"] = None
             else:
-                sel = []
-                for t, v in sp.items():
-                    if v[0] == "counts":
-                        sel.append({"name": t, "sel": {"counts": v[1]}})
-                    elif v[0] == "tsqlError":
-                        sel.append({"name": t, "sel": "tsqlError"})
-                    else:
-                        if v[1] == "unmodelled":
-                            return None
-                        sel.append({"name": t, "sel": {"raise": v[1]}})
-                req["sel"] = sel
+                if any(v is None for v in fp.values()):
+                    return None
+                req["sel"] = [{"name": t, "filt": v} for t, v in fp.items()]
         elif case["kind"] == "lines":
             req["delim"] = case["delim"]
             req["lines"] = case["lines"]
